@@ -3,12 +3,16 @@ package registry
 
 import (
 	"verif/sim/clisim"
+	"verif/sim/detsim"
 	"verif/sim/execsim"
 	"verif/sim/schemasim"
 	"verif/sim/simkit"
 )
 
 var checks = map[string]*simkit.Check{}
+
+// RaceChild runs the C20 operation set concurrently (binary built with -race).
+var RaceChild = detsim.RaceChild
 
 // Detop runs the C20 operation set of a scenario seed under a map seed (seamed builds only).
 var Detop func(seed, mapSeed uint64) string
